@@ -85,8 +85,13 @@ func (b *c14batchResult) reports(e *c14env, cons string) {
 // c14batch analyses a batch operation of the TopicManager: mutator is "insert" or "remove".
 func c14batch(e *c14env, name, mutator string) *c14batchResult {
 	c := e.c
-	f := e.role(name).f
+	outer := e.role(name).f
 	cons := e.role(name).cons
+	// the operation's body may be a closure handed to a lock wrapper (withWriteLock(func() error {..}))
+	f := outer
+	if lit, _, ok := e.lockedBody(outer); ok {
+		f = lit
+	}
 	mutObj := e.role(mutator).obj
 	muts := c14callsToFn(f, f.Body, false, mutObj)
 	if !c.RequireCount("R-C14-6", mutator+" call sites in "+name, len(muts), 1) {
@@ -97,7 +102,7 @@ func c14batch(e *c14env, name, mutator string) *c14batchResult {
 	var slice types.Object
 	for _, m := range muts {
 		isMut[m] = true
-		l, sl := c14batchLoop(f, m)
+		l, sl := e.batchLoop(f, outer, m)
 		if l == nil || (loop != nil && l != loop) {
 			c.Undecide("R-C14-6", cons+"|batch loop", pos(c, m), mutator+" is not called from a single loop visiting every element of the filter slice parameter (range, or for i := 0; i < len(s); i++)")
 			return nil
@@ -363,82 +368,54 @@ func (b *c14batchResult) complete(e *c14env, cons, consequence string) {
 		}()...)
 }
 
-// c14batchLoop finds the loop around a mutator call that visits every element of a slice
-// parameter and hands the current element to the call: `for _, t := range s` / `for i := range s`
-// with s[i], or `for i := 0; i < len(s); i++` with s[i].
-func c14batchLoop(f *flow.Func, call *ast.CallExpr) (ast.Stmt, types.Object) {
-	if len(call.Args) == 0 {
-		return nil, nil
-	}
-	arg := ast.Unparen(call.Args[0])
+// batchLoop finds the loop around a mutator call that visits every element of a slice parameter of
+// the batch operation (outer) and hands the current element to the call: the element itself, s[i],
+// or the levels a level source returned for it in the same iteration (`levels, err := getLevels(t)`).
+// Loops in all three element-wise forms (c14iterOf).
+func (e *c14env) batchLoop(f, outer *flow.Func, call *ast.CallExpr) (ast.Stmt, types.Object) {
 	loops := enclosingLoops(f.Body, call)
 	for i := len(loops) - 1; i >= 0; i-- {
-		switch l := loops[i].(type) {
-		case *ast.RangeStmt:
-			sl := c14obj(f, l.X)
-			if !c14isParam(f, sl) {
-				continue
-			}
-			if o := c14obj(f, arg); o != nil && o == c14obj(f, l.Value) {
-				return l, sl
-			}
-			if ix, ok := arg.(*ast.IndexExpr); ok && c14obj(f, ix.X) == sl && c14obj(f, ix.Index) != nil && c14obj(f, ix.Index) == c14obj(f, l.Key) {
-				return l, sl
-			}
+		it := c14iterOf(f, loops[i])
+		if it == nil {
 			continue
-		case *ast.ForStmt:
-			ix, ok := arg.(*ast.IndexExpr)
-			if !ok {
-				continue
+		}
+		sl := c14obj(f, it.slice)
+		if !c14isParam(outer, sl) {
+			continue
+		}
+		isElem := func(x ast.Expr) bool {
+			x = ast.Unparen(x)
+			if o := c14obj(f, x); o != nil && o == it.elem {
+				return true
 			}
-			sl, iv := c14obj(f, ix.X), c14obj(f, ix.Index)
-			if !c14isParam(f, sl) || iv == nil {
-				continue
+			ix, ok := x.(*ast.IndexExpr)
+			return ok && c14obj(f, ix.X) == sl && c14obj(f, ix.Index) != nil && c14obj(f, ix.Index) == it.key
+		}
+		fromElem := func(x ast.Expr) bool {
+			if isElem(x) {
+				return true
 			}
-			// for i := 0; i < len(s); i++
-			init, ok1 := l.Init.(*ast.AssignStmt)
-			post, ok2 := l.Post.(*ast.IncDecStmt)
-			if !ok1 || !ok2 || len(init.Lhs) != 1 || len(init.Rhs) != 1 || c14obj(f, init.Lhs[0]) != iv || c14obj(f, post.X) != iv || post.Tok.String() != "++" {
-				continue
+			v := c14obj(f, x)
+			if v == nil {
+				return false
 			}
-			if tv, ok := f.Info.Types[init.Rhs[0]]; !ok || tv.Value == nil || tv.Value.ExactString() != "0" {
-				continue
-			}
-			lenOf := func(x ast.Expr) bool {
-				c, ok := ast.Unparen(x).(*ast.CallExpr)
-				return ok && c14isBuiltin(f, c, "len") && len(c.Args) == 1 && c14obj(f, c.Args[0]) == sl
-			}
-			cond, ok := ast.Unparen(l.Cond).(*ast.BinaryExpr)
-			if !ok {
-				continue
-			}
-			full := (cond.Op.String() == "<" && c14obj(f, cond.X) == iv && lenOf(cond.Y)) ||
-				(cond.Op.String() == ">" && c14obj(f, cond.Y) == iv && lenOf(cond.X)) ||
-				(cond.Op.String() == "!=" && c14obj(f, cond.X) == iv && lenOf(cond.Y))
-			if !full {
-				continue
-			}
-			// the index variable is not written in the body
-			written := false
-			ast.Inspect(l.Body, func(n ast.Node) bool {
-				switch t := n.(type) {
-				case *ast.AssignStmt:
-					for _, x := range t.Lhs {
-						if c14obj(f, x) == iv {
-							written = true
-						}
-					}
-				case *ast.IncDecStmt:
-					if c14obj(f, t.X) == iv {
-						written = true
-					}
+			found := false
+			ast.Inspect(it.body, func(n ast.Node) bool {
+				as, ok := n.(*ast.AssignStmt)
+				if !ok || len(as.Rhs) != 1 || c14obj(f, as.Lhs[0]) != v {
+					return true
+				}
+				if src, ok := ast.Unparen(as.Rhs[0]).(*ast.CallExpr); ok && e.isSource(f, src) && len(src.Args) == 1 && isElem(src.Args[0]) {
+					found = true
 				}
 				return true
 			})
-			if written {
-				continue
+			return found
+		}
+		for _, a := range call.Args {
+			if fromElem(a) {
+				return loops[i], sl
 			}
-			return l, sl
 		}
 	}
 	return nil, nil
